@@ -19,7 +19,7 @@ def dump_grammars(binary, dialects):
 
     def one(d):
         path = os.path.join(vlib.GEN, "PemGrammar_%s.v" % d)
-        rc, out = vlib.sh([binary, "pem", "--dump-grammar", d, "--out", path], timeout=600)
+        rc, out = vlib.sh([binary, "pem", "--dump-grammar", d, "--out", path], timeout=120)   # a dump takes < 1 s; a hang (first-token hint that never terminates) must not stall the check
         if rc != 0:
             return d, False, "dump failed: " + out[-1500:]
         rc, out2 = vlib.run_coqc(os.path.join("gen", "PemGrammar_%s.v" % d), 1200)
